@@ -196,10 +196,10 @@ Definition at_ (ip : bytes) (i : nat) : N := nth i ip 0.
 (* group j is zero: not (ip[j*2] != 0x00 || ip[j*2+1] != 0x00) *)
 Definition gz (ip : bytes) (j : nat) : bool := (at_ ip (2 * j) =? 0) && (at_ ip (2 * j + 1) =? 0).
 
-(* ZERO_RUN_MIN: the comparison constant of "zeros := j - i; zeros > K".
+(* ZERO_RUN_K: the comparison constant of "zeros := j - i; zeros > K".
    As found: K = 1, so only runs of THREE or more groups were compressed (DESIGN 11 #25).
-   fix: K = 0 (a run of two groups has j - i = 1). *)
-Definition ZERO_RUN_K : Z := 1%Z.
+   fix (/repo "fix: fastlog appendIP6 compresses a run of two zero groups"): K = 0. *)
+Definition ZERO_RUN_K : Z := 0%Z.
 
 (* for ; j < 8; j++ { if nonzero { break }
      if zeros := j - i; zeros > K && zeros > endZ-startZ { startZ = i; endZ = j } } *)
@@ -230,7 +230,9 @@ Definition ip6_search (ip : bytes) : Z * Z :=
      if i >= startZ && i <= endZ { continue }
      if ip[i*2] != 0 { writeHexNoleadingZeros(ip[i*2]); writeHex(ip[i*2+1]) }
      else { writeHexNoleadingZeros(ip[i*2+1]) }
-     appendByte(':') } *)
+     if i < 7 { appendByte(':') } }
+   (as found: appendByte(':') after every group and "if endZ < 7 { l.index-- }" after the loop,
+    which panicked when the text ended exactly at byte 2048; fix: no separator after group 7) *)
 Definition ip6_body (ip : bytes) (sZ eZ : Z) (i : nat) (l : line) : res line :=
   let zi := Z.of_nat i in
   if (zi =? sZ)%Z then
@@ -240,7 +242,7 @@ Definition ip6_body (ip : bytes) (sZ eZ : Z) (i : nat) (l : line) : res line :=
     (l <- (if negb (at_ ip (2 * i) =? 0)
            then l <- write_hex_nlz l (at_ ip (2 * i)) ;; write_hex l (at_ ip (2 * i + 1))
            else write_hex_nlz l (at_ ip (2 * i + 1))) ;;
-     append_byte l 58)%res.
+     if Nat.ltb i 7 then append_byte l 58 else Ok l)%res.
 Fixpoint ip6_emit (ip : bytes) (sZ eZ : Z) (is : list nat) (l : line) : res line :=
   match is with
   | [] => Ok l
@@ -248,12 +250,11 @@ Fixpoint ip6_emit (ip : bytes) (sZ eZ : Z) (is : list nat) (l : line) : res line
   end.
 
 (* func (l *Line) appendIP6(ip net.IP):
-     if len(ip) != 16 { copy "nil"; return } ; search ; emit ; if endZ < 7 { l.index-- } *)
+     if len(ip) != 16 { copy "nil"; return } ; search ; emit *)
 Definition append_ip6 (l : line) (ip : bytes) : res line :=
   if negb (Nat.eqb (List.length ip) 16) then copy_in l NIL
   else let '(sZ, eZ) := ip6_search ip in
-       (l <- ip6_emit ip sZ eZ (seq 0 8) l ;;
-        Ok (if (eZ <? 7)%Z then dec_index l else l))%res.
+       ip6_emit ip sZ eZ (seq 0 8) l.
 
 (* IPSlice(name, value net.IP): open;
      if value != nil { if ip := value.To4(); ip != nil { dotted; return }; appendIP6(value); return }
@@ -378,38 +379,42 @@ Definition f_string_array (l : line) (name : bytes) (vs : list bytes) : res line
 
 (* IPArray(name, value []net.IP): same frame;
      for _, v := range value {
-       if l.index+28+2 > cap { break }
-       if v != nil { if ip := v.To4(); ip != nil { dotted ; return l } ; l.appendIP6(v) }
+       if l.index+39+2 > cap { break }
+       if v != nil { if ip := v.To4(); ip != nil { dotted } else { l.appendIP6(v) } }
        ',' ' ' }
      l.index-- ; ']'
-   The loop result is (line, returned-early). IPARR_ROOM is the guard constant "28+2". *)
-Definition IPARR_ROOM : nat := 30.
-Fixpoint ia_loop (vs : list (option bytes)) (l : line) : res (line * bool) :=
+   IPARR_ROOM is the guard constant "39+2": the longest address text plus ", ".
+   (as found: 28+2, too small for a full IPv6 address, and "return l" after a dotted element;
+    both repaired, see Model/FastlogAsFound.v) *)
+Definition IPARR_ROOM : nat := 41.
+Fixpoint ia_loop (vs : list (option bytes)) (l : line) : res line :=
   match vs with
-  | [] => Ok (l, false)
+  | [] => Ok l
   | v :: r =>
-      if Nat.ltb BUFSZ (index l + IPARR_ROOM) then Ok (l, false)
+      if Nat.ltb BUFSZ (index l + IPARR_ROOM) then Ok l
       else
-        match match v with Some ip => to4 ip | None => None end with
-        | Some [a; b; c; d] => (l <- put_ip4 l a b c d ;; Ok (l, true))%res     (* return l *)
-        | _ =>
-            (l <- match v with Some ip => append_ip6 l ip | None => Ok l end ;;
-             l <- append_byte l 44 ;; l <- append_byte l 32 ;; ia_loop r l)%res
-        end
+        (l <- match v with
+              | Some ip => match to4 ip with
+                           | Some [a; b; c; d] => put_ip4 l a b c d
+                           | _ => append_ip6 l ip
+                           end
+              | None => Ok l
+              end ;;
+         l <- append_byte l 44 ;; l <- append_byte l 32 ;; ia_loop r l)%res
   end.
 Definition f_ip_array (l : line) (name : bytes) (vs : list (option bytes)) : res line :=
   if Nat.ltb BUFSZ (index l + List.length name + 4) then Ok l
   else (l <- field_open l name ;; l <- append_byte l 91 ;;
         match vs with
         | [] => append_byte l 93
-        | _ => '(l, early) <- ia_loop vs l ;;
-               if early then Ok l else append_byte (dec_index l) 93
+        | _ => l <- ia_loop vs l ;; append_byte (dec_index l) 93
         end)%res.
 
 (* ByteArray(name, value):
      truncated := false
      rem := cap(l.buffer) - l.index - 1 - len(name) - 2
      if rem <= len(value)*3 {
+       if rem < len("TRUNCATED ") { return l }        -- fix: no room for the marker, drop the field
        copy(l.buffer[cap-len("TRUNCATED "):], "TRUNCATED "); rem -= 10; value = value[:rem/3]; truncated = true }
      ' ' ; copy name ; copy "=[" ; for _, v := range value { writeHex(v); ' ' }
      if len(value) > 0 { l.index-- } ; ']' ; if truncated { l.index = cap - 1 }
@@ -426,7 +431,8 @@ Definition f_byte_array (l : line) (name : bytes) (value : bytes) : res line :=
   let trunc := (rem <=? Z.of_nat (List.length value) * 3)%Z in
   let b1 := if trunc then write_at (buf l) (BUFSZ - 10) TRUNCATED else buf l in
   let hi := Z.quot (rem - 10) 3 in
-  if trunc && (hi <? 0)%Z then Panic
+  if trunc && (rem <? 10)%Z then Ok l
+  else if trunc && (hi <? 0)%Z then Panic
   else
     let value' := if trunc then firstn (Z.to_nat hi) value else value in
     (l <- append_byte (mkLine b1 (index l)) 32 ;; l <- copy_in l name ;; l <- copy_in l [61; 91] ;;
